@@ -136,6 +136,88 @@ theorem C08_utf16_incremental (be : Bool) : Laws (utf16 be) := utf16_incremental
     stream (`C08_ustream_any_requests`, `C08_bytes_to_scanner`, `C03_ustream_total`) holds for them -/
 theorem C11_utf16_incremental (be : Bool) : Laws (utf16 be) := utf16_incremental be
 
+/-! ### C11: the same text in UTF-8 and in UTF-16 -/
+
+/-- UTF-8 form of a scalar value -/
+def utf8Enc (cp : Nat) : List Nat :=
+  if cp < 0x80 then [cp]
+  else if cp < 0x800 then [0xC0 + cp / 0x40, 0x80 + cp % 0x40]
+  else if cp < 0x10000 then [0xE0 + cp / 0x1000, 0x80 + cp / 0x40 % 0x40, 0x80 + cp % 0x40]
+  else [0xF0 + cp / 0x40000, 0x80 + cp / 0x1000 % 0x40, 0x80 + cp / 0x40 % 0x40, 0x80 + cp % 0x40]
+
+/-- UTF-16BE / UTF-16LE form of a scalar value -/
+def utf16Enc (be : Bool) (cp : Nat) : List Nat :=
+  (utf16Units cp).flatMap (fun u => if be = true then [u / 256, u % 256] else [u % 256, u / 256])
+
+def isScalar (cp : Nat) : Prop := cp < 0x110000 ∧ ¬ (0xD800 ≤ cp ∧ cp ≤ 0xDFFF)
+
+/-- FULL statement (NOT proved): a text of Unicode scalar values (a leading U+FEFF included) encoded in UTF-8 and in
+    UTF-16BE/LE decodes, through the model's converters, to the same UTF-16 units — hence, with
+    `C08_ustream_any_requests`, the scanner is handed the same stream whatever the signature-recognised encoding.
+    Missing: the round-trip arithmetic of the 2-, 3- and 4-byte forms and of surrogate pairs. -/
+def C11_same_units_any_signature_full : Prop :=
+  ∀ (text : List Nat) (be : Bool) (repl : Nat), (∀ cp ∈ text, isScalar cp) →
+    decodeAll utf8 repl (text.flatMap utf8Enc) = text.flatMap utf16Units ∧
+    decodeAll (utf16 be) repl (text.flatMap (utf16Enc be)) = text.flatMap utf16Units
+
+theorem evs_emit {t : Trans} {s s' : t.σ} {b : Nat} {us : List Nat} (h : t.feed s b = .emit us s') (rest : List Nat) :
+    t.evs s (b :: rest) = us.map .unit ++ t.evs s' rest := by
+  conv => lhs; unfold Trans.evs
+  simp only [h]
+
+theorem utf8_evs_ascii (cp : Nat) (h : cp < 0x80) (bs : List Nat) :
+    utf8T.evs [] (cp :: bs) = .unit cp :: utf8T.evs [] bs := by
+  have hf : utf8T.feed [] cp = .emit [cp] [] := by simp [utf8T, utf8Feed, h]
+  rw [evs_emit hf]; rfl
+
+theorem utf16_evs_ascii (be : Bool) (cp : Nat) (h : cp < 0x80) (bs : List Nat) :
+    (utf16T be).evs [] (utf16Enc be cp ++ bs) = .unit cp :: (utf16T be).evs [] bs := by
+  have h1 : cp / 256 = 0 := by omega
+  have h2 : cp % 256 = cp := by omega
+  have h3 : utf16Units cp = [cp] := by unfold utf16Units; rw [if_pos (by omega)]
+  have hl : isLead cp = false := by simp [isLead]; omega
+  have ht : isTrail cp = false := by simp [isTrail]; omega
+  cases be
+  · have e : utf16Enc false cp ++ bs = cp :: 0 :: bs := by simp [utf16Enc, h3, h1, h2]
+    have f1 : (utf16T false).feed [] cp = .emit [] [cp] := rfl
+    have f2 : (utf16T false).feed [cp] 0 = .emit [cp] [] := by simp [utf16T, utf16Feed, unit16, hl, ht]
+    rw [e, evs_emit f1, evs_emit f2]; rfl
+  · have e : utf16Enc true cp ++ bs = 0 :: cp :: bs := by simp [utf16Enc, h3, h1, h2]
+    have f1 : (utf16T true).feed [] 0 = .emit [] [0] := rfl
+    have f2 : (utf16T true).feed [0] cp = .emit [cp] [] := by simp [utf16T, utf16Feed, unit16, hl, ht]
+    rw [e, evs_emit f1, evs_emit f2]; rfl
+
+/-- PROVED PART of `C11_same_units_any_signature_full`: for ASCII text (the characters CIF syntax itself is made of) -/
+theorem C11_same_units_any_signature_partial (text : List Nat) (be : Bool) (repl : Nat) (h : ∀ cp ∈ text, cp < 0x80) :
+    decodeAll utf8 repl (text.flatMap utf8Enc) = text.flatMap utf16Units ∧
+    decodeAll (utf16 be) repl (text.flatMap (utf16Enc be)) = text.flatMap utf16Units := by
+  induction text with
+  | nil => constructor <;> rfl
+  | cons cp rest ih =>
+    have hcp : cp < 0x80 := h cp (by simp)
+    have ih' := ih (fun x hx => h x (by simp [hx]))
+    have h3 : utf16Units cp = [cp] := by unfold utf16Units; rw [if_pos (by omega)]
+    constructor
+    · have := ih'.1
+      simp only [decodeAll, utf8, Trans.toConv, List.map_nil, List.nil_append] at this ⊢
+      simp only [List.flatMap_cons, utf8Enc, if_pos hcp, List.singleton_append, h3]
+      have e := utf8_evs_ascii cp hcp (List.flatMap utf8Enc rest)
+      change utf8T.evs utf8T.init _ = .unit cp :: utf8T.evs utf8T.init _ at e
+      rw [e]
+      simp only [render]
+      rw [this]
+    · have := ih'.2
+      simp only [decodeAll, utf16, Trans.toConv, List.map_nil, List.nil_append] at this ⊢
+      simp only [List.flatMap_cons, h3, List.singleton_append]
+      have e := utf16_evs_ascii be cp hcp (List.flatMap (utf16Enc be) rest)
+      change (utf16T be).evs (utf16T be).init _ = .unit cp :: (utf16T be).evs (utf16T be).init _ at e
+      rw [e]
+      simp only [render]
+      rw [this]
+
+example : decodeAll utf8 0xFFFD ([0x23, 0x5C, 0x23, 0x43].flatMap utf8Enc) = [0x23, 0x5C, 0x23, 0x43] ∧
+    decodeAll (utf16 false) 0xFFFD ([0x23, 0x5C, 0x23, 0x43].flatMap (utf16Enc false)) = [0x23, 0x5C, 0x23, 0x43] := by decide
+
 /-- the non-empty deliveries of a run, as a chunked character source for `get_first_char` / `get_more_chars` -/
 def deliveries {c : Conv} (rs : List (CallR c)) : List Str := (rs.map (·.units)).filter (· ≠ [])
 
